@@ -2088,6 +2088,35 @@ def c01w(F, R):
         else:
             R.bad(key, f"`{text}` changes the CSR but neither generates its new value nor drops the old one: the value known before the instruction is still claimed after it (`csrw t0, uscratch` with t0 = 5, then `csrs t1, uscratch` with t1 = 2, then `csrr a7, uscratch`: a7 = 5 is claimed, the machine has 7 - and the next `ecall` is read as service 5)", gp["sp"])
 
+@rule("C01", "C01.x.a-store-finds-its-slot-by-value", floor=1)
+def c01x(F, R):
+    """a stack slot is named by its distance from the entry stack pointer, not by the register that happens to hold the address: a store whose base register is *known* to point into the frame (`addi t1, sp, 4; sw zero, 0(t1)`) updates - or, if it is narrower than a word, drops - the slot it hits, exactly as the same store through sp would. A value pass that only looks for the name `sp` in a store keeps the slot's old claim, and `lw a7, 4(sp); ecall` is read with the value that was overwritten"""
+    AV = "riscv_analysis::analysis::available::AvailableValue"
+    f = _avpass_run(F)
+    cands = [f] + [g for q, g in sorted(F.fns.items()) if "::analysis::available::rule_" in q and "hir" in g and "{closure" not in q]
+    called = {callee_of(c) for c in walk(f["hir"]["value"], pats=False) if c.get("k") == "Call"}
+    found = None
+    for g in cands:
+        if g is not f and g["path"] not in called:
+            continue
+        body = g["hir"]["value"]
+        # a place that (1) looks at a store, (2) asks what its base register holds and recognises `entry sp + k`, (3) writes a StackOffset fact
+        looks_store = any((y.get("res") or "").endswith("ParserNode::Store") for y in walk(body)) or any(y.get("k") == "MethodCall" and y["name"] == "stores_to_memory" for y in walk(body, pats=False))
+        asks_value = False
+        for m in walk(body, pats=False):
+            if m.get("k") == "LetExpr" and any((y.get("res") or "").endswith("AvailableValue::OriginalRegisterWithScalar") for y in walk(m["pat"])):
+                ini = list(walk(m["init"], pats=False))
+                if any(y.get("k") == "MethodCall" and y["name"] == "get" for y in ini) and any(y.get("k") == "Field" and y["name"] == "rs1" for y in ini) or any(y.get("k") == "Path" and y.get("res_kind") == "Local" for y in ini) and g is not f:
+                    asks_value = True
+        writes_slot = any(m.get("k") == "MethodCall" and m["name"] in ("insert", "remove") and any((y.get("res") or "").endswith("MemoryLocation::StackOffset") for y in walk(m, pats=False)) for m in walk(body, pats=False))
+        checks_sp = any(y.get("k") == "MethodCall" and y["name"] == "is_stack_pointer" for y in walk(body, pats=False)) or any((y.get("res") or "").endswith("Register::X2") for y in walk(body))
+        if looks_store and asks_value and writes_slot and checks_sp and g is not f:
+            found = g
+    if found is not None:
+        R.ok("alias", detail=f"{short(found['path'])}: a store through a register that holds `entry sp + k` updates / drops the slot it hits", where=found["sp"])
+    else:
+        R.bad("alias", "no rule of the value pass applies a store through a register that is known to point into the stack frame: `li t0, 7; sw t0, 4(sp); addi t1, sp, 4; sw zero, 0(t1); lw a7, 4(sp); ecall` keeps claiming slot 4 = 7 and reads the ecall as service 7 (the machine: 0)", f["sp"])
+
 
 @rule("C01", "C01.h.kill-reaches-values", floor=1)
 def c01h(F, R):
